@@ -193,6 +193,23 @@ CHECKS.update({
         ref="4/C18"),
 })
 
+CHECKS.update({
+    "C19": dict(
+        technique="Lean 4 proof (GUI orchestration state machine: user actions + completion of any pending worker; invariants by induction over all histories and schedules; kernel-evaluated counter-histories) + correspondence with the real Qats window (offscreen, thread pool replaced by a queue) after every event",
+        text="Theorems: in every reachable state the list rows are db.list(relative) and the status count is the database size; an import "
+             "containing a loaded series changes nothing, an import is all-or-nothing; the selection is exactly the database keys behind "
+             "the ticked visible rows; PARTIAL: if display/clear/settings changes are made only while no display request is in flight, "
+             "each of the five views shows the latest request's series and settings for every completion order (imports, ticking, list "
+             "filter, Gumbel plots unrestricted). The unrestricted statement is false for the code: machine-checked counter-histories "
+             "K1 (overlapping requests; also table rows in FIFO order), K2 (settings read at read-completion / draw time), K4 (clear in "
+             "flight). Tied on fixed corner histories + seeded random histories generated against the live queue (thorough: the canonical "
+             "completion patterns of two overlapping requests x variants + sampled permutations): rows, tick marks, status, queued "
+             "workers with captured arguments, per-view series and settings decoded from the drawn numbers against qats.app.funcs "
+             "called directly, statistics-table cells, Gumbel tabs.",
+        note=TB + "Real thread timing, Qt signal delivery and pixel rendering are not modelled (queue pool, synchronous signals, FigureCanvas.draw stubbed). Library computations are opaque in the model; numbers are compared by the harness. K1, K2, K4 are known findings.",
+        ref="4/C19"),
+})
+
 NOT_YET = {}
 
 PROPS = [json.loads(l) for l in open(os.path.join(HERE, "properties.jsonl"))]
